@@ -1,0 +1,15 @@
+//go:build verif
+
+// Contracts for govc (see /verif/DESIGN.md). Comment-only: no executable code with or without the tag.
+
+package prefix
+
+// Interface contracts of prefix.Prefix (accessors: no effects).
+//@ func (p Prefix) Bytes() []byte
+//@   assigns nothing
+//@ func (p Prefix) FlushPolicy() int32
+//@   assigns nothing
+//@ func (p Prefix) ID() PrefixID
+//@   assigns nothing
+//@ func (p Prefix) DstPort(seed []byte) uint16
+//@   assigns nothing
